@@ -46,7 +46,7 @@ func (*verifGeoTable) Data(string, netip.Addr) (*geoip.Location, error) { return
 // otherwise of the client's own address, in the family of the ECS option (or of the
 // client address when there is none).
 //
-//verif:harness name=H05e-location tier=quick,thorough bounds="client IPv4 or IPv6 with location NL/AS64500, unknown or absent; ECS option absent, or IPv4 / IPv6 with location DE/AS64511, with an unknown location, or without one; GeoIP stub with one subnet per (country, family)" reach=by-ecs-location,by-client-location,no-location maxpaths=20000
+//verif:harness name=H05e-location tier=quick,thorough bounds="client IPv4 or IPv6 with location NL/AS64500, unknown or absent; ECS option absent, or IPv4 / IPv6 with location DE/AS64511, with a country but no ASN, with an unknown location, or without one; GeoIP stub with one subnet per (country, family)" reach=by-ecs-location,by-client-location,no-location maxpaths=20000
 //verif:assume GeoIP database content is a stub table
 func VerifC05Location() {
 	noECS, ecs := &verifCache{}, &verifCache{}
@@ -68,7 +68,7 @@ func VerifC05Location() {
 		cliLoc = &geoip.Location{} // known address, unknown country
 	}
 	var opt *dnsmsg.ECS
-	ecsKind := verifChoice(4) // 0 none, 1 located, 2 unknown location, 3 no location
+	ecsKind := verifChoice(5) // 0 none, 1 located, 2 unknown location, 3 no location, 4 country without ASN
 	ecs6 := false
 	if ecsKind != 0 {
 		ecs6 = verifChoice(2) == 1
@@ -82,6 +82,8 @@ func VerifC05Location() {
 			opt.Location = &geoip.Location{Country: "DE", ASN: 64511}
 		case 2:
 			opt.Location = &geoip.Location{}
+		case 4:
+			opt.Location = &geoip.Location{Country: "DE"}
 		}
 	}
 	req := &dns.Msg{}
@@ -101,6 +103,11 @@ func VerifC05Location() {
 	switch {
 	case ecsKind == 1:
 		wantCtry, wantASN = "DE", 64511
+		verifReach("by-ecs-location")
+	case ecsKind == 4:
+		// the option's country is known, its system is not: the client's own system
+		// must not be put in its place
+		wantCtry, wantASN = "DE", 0
 		verifReach("by-ecs-location")
 	case cliLoc != nil && cliLoc.Country != "":
 		wantCtry, wantASN = "NL", 64500
